@@ -57,7 +57,7 @@ TIERS = {
     "thorough": {
         "ops": [o[0] for o in lb.OPS], "depth3_ops": ["add"],
         "tlc_bin": "BinopSlot_deep", "tlc_cmp": "BinopSlotCmp_thorough", "strict": True,
-        "cmp": [(all64(), [], TINY), (SMALL, SMALL, TINY)], "complete_ops": [o[0] for o in lb.OPS[:8]],
+        "cmp": [(all64(), [], TINY), (FIVE, FIVE, TINY)], "complete_ops": [o[0] for o in lb.OPS[:8]],
         "cmp_modules": 12,
     },
 }
@@ -192,7 +192,7 @@ def run(tier, seed):
     phase = {}
 
     def timed_build():
-        r = core.build_many(specs, None, 8 if tier == "quick" else 12, timeout=3000)
+        r = core.build_many(specs, None, 14 if tier == "quick" else 16, timeout=3000)
         phase["builds_done_at"] = round(time.time() - t0, 1)
         return r
     fut_build = pool.submit(timed_build)
